@@ -1,6 +1,7 @@
 SPECIFICATION Spec
 CONSTANTS
   BS = 2
+  RdMax = 2
   Nmaxbs = {2, 3}
   Extras = {0, 1}
   Nbrs = {2}
